@@ -213,7 +213,15 @@ def run(ctx):
         r.ok("C01.splice", "vhdlFile.update+writers", "token list written only by vhdlFile's parse/update/normalise; update splices [start:end] of the same update, last first; New.end = start + len(tokens)")
     up = p.function("vsg.vhdlFile.vhdlFile:vhdlFile.update")
     rb = p.function("vsg.vhdlFile.vhdlFile:remove_beginning_of_file_tokens")
-    conds = [norm(n.test) for n in walk_function(rb.node) if isinstance(n, ast.If)]
+    conds = []
+    for n in ast.walk(rb.node):
+        if isinstance(n, ast.For) and isinstance(n.target, ast.Name):
+            for x in ast.walk(n):
+                if isinstance(x, ast.If):
+                    conds.append(norm(x.test).replace(n.target.id, "oToken"))
+        elif isinstance(n, ast.comprehension) and isinstance(n.target, ast.Name):
+            for c in n.ifs:
+                conds.append(norm(c).replace(n.target.id, "oToken"))
     if conds == ["not isinstance(oToken, parser.beginning_of_file)"] and any(isinstance(n, ast.Call) and norm(n.func) == "remove_beginning_of_file_tokens" for n in walk_function(up.node)):
         r.ok("C01.splice", rb.key, "update() drops only synthetic beginning_of_file tokens from what a fix hands back")
     else:
